@@ -47,6 +47,11 @@ def cfg_inputs(cfg):
         agp = ["# HiC MAP RESOLUTION: 1.000000 bp/texel",
                "Scaffold_1\t1\t50\t1\tW\tS1\t1\t50\t+\tPainted\tX\tSingleton", "Scaffold_2\t1\t40\t1\tW\tS1\t51\t90\t-\tPainted\tW\tSingleton",
                "Scaffold_3\t1\t70\t1\tW\tS2\t1\t70\t+"]
+    elif cfg == "recurate":
+        # re-curation of an already curated assembly: input names of the shape word_x_digits are read as carrying a haplotype
+        recs = {"SUPER_1": rec("r1", [60]), "SUPER_2": rec("r2", [50, "N10", 30]), "SUPER_2_unloc_1": rec("r3", [20]), "scaffold_4": rec("r4", [15])}
+        agp = ["# HiC MAP RESOLUTION: 1.000000 bp/texel", "Scaffold_1\t1\t60\t1\tW\tSUPER_1\t1\t60\t+", "Scaffold_2\t1\t90\t1\tW\tSUPER_2\t1\t90\t-",
+               "Scaffold_3\t1\t20\t1\tW\tSUPER_2_unloc_1\t1\t20\t+", "Scaffold_4\t1\t15\t1\tW\tscaffold_4\t1\t15\t+"]
     else:  # twohap
         recs = {"HAP1_SCAFFOLD_1": rec("h1", [60]), "HAP2_SCAFFOLD_2": rec("h2", [55]), "HAP1_SCAFFOLD_3": rec("h3", [20]), "HAP2_SCAFFOLD_4": rec("h4", [18])}
         agp = ["# HiC MAP RESOLUTION: 1.000000 bp/texel",
@@ -265,3 +270,42 @@ def cli_fasta_case(sc):
                                   "lines": lines, "maxchunk": 0, "maxread": 0, "e2e": 1})
     shutil.rmtree(d, ignore_errors=True)
     return {"file": ft, "agps": agps}
+
+
+# ------------------------------------------------------------------------------------------------- conservation through the files the CLI writes
+def tpf_rows(path):
+    """independent reader of a TPF file: list of scaffolds [name, rows] with rows in the Rows.tla record shape"""
+    scs = []
+    for line in Path(path).read_text().splitlines():
+        if not line.strip() or line.startswith("#"):
+            continue
+        f = line.split("\t")
+        if f[0] == "GAP":
+            row = {"k": "G", "name": {"TYPE-2": "scaffold", "TYPE-3": "contig"}.get(f[1], f[1].lower().replace("-", "_")), "s": 1, "e": int(f[2]), "st": 0}
+            scs[-1]["rows"].append(row)
+            continue
+        nm, se = f[1].rsplit(":", 1)
+        a, b = se.split("-")
+        if not scs or scs[-1]["name"] != f[2]:
+            scs.append({"name": f[2], "rows": []})
+        scs[-1]["rows"].append({"k": "F", "name": nm, "s": int(a), "e": int(b), "st": {"PLUS": 1, "MINUS": -1}.get(f[3], 0)})
+    return scs
+
+
+def cli_remap_case(sc):
+    """pretext-to-asm with TPF input and TPF output; the trace holds the input rows and the rows of EVERY file written (RemapTrace, class cli)"""
+    root, cfg, tid = sc["root"], sc["cfg"], sc["tid"]
+    d = Path(tempfile.mkdtemp(prefix="clir-", dir=root))
+    ind = d / "inp"
+    ind.mkdir()
+    asm_p, ptx_p = write_inputs(ind, cfg, "tpf")
+    out = d / "out"
+    out.mkdir()
+    rc, text, exc = run_inproc(["-a", asm_p, "-p", ptx_p, "-o", out / "x.1.tpf", "--no-write-log"])
+    t = {"tid": tid, "cls": "cli/" + cfg, "tn": 1, "td": 1, "naming": "fasta", "valid": 0, "input": tpf_rows(asm_p), "map": [], "haps": [], "style": "cli",
+         "status": "ok" if rc == 0 else f"exc:exit{rc}", "out": [], "stats": {"cuts": 0, "breaks": 0, "joins": 0}, "msg": text[-200:]}
+    for f in sorted(out.glob("*.tpf")):
+        for s in tpf_rows(f):
+            t["out"].append({"asm": f.name, "asm_lc": f.name.lower(), "name": s["name"], "rank": 0, "tag": "", "hap": "", "orig": "", "rows": s["rows"]})
+    shutil.rmtree(d, ignore_errors=True)
+    return t
